@@ -51,6 +51,12 @@ class LoopSoapClient:
         request = RequestData({}, path, 'verif')
         request.message_data = bench.device.msg_reader.read_received_message(xml_request)
         response = self._port_impl.hosting_service.on_post(request)
+        # the handler returned an unserialised message (the http layer serialises later): `before_serialise` (one-shot)
+        # lets other requests / transactions happen in between, as with overlapping connections
+        hook = bench.before_serialise
+        if hook is not None:
+            bench.before_serialise = None
+            hook()
         xml_response = bench.device.msg_factory.serialize_message(response)
         self.last_response = xml_response
         return bench.consumer.msg_reader.read_received_message(xml_response)
@@ -79,6 +85,7 @@ class Bench:
             kw['role_provider_components'] = RoleProviderComponents(role_provider_class=None, waveform_provider_class=None)
         self.device = mockstuff.SomeDevice.from_mdib_file(self.wsd, None, mdib_file, validate=validate, **kw)
         self.mdib = self.device.mdib
+        self.before_serialise = None
         self.consumer = SdcConsumer('http://127.0.0.1:1/verif', SdcV1Definitions, ssl_context_container=None,
                                     validate=validate)
         hs = self.device.hosted_services
